@@ -145,7 +145,7 @@ if __name__ == "__main__":
         mn = int(params[0]) if params else 1
         mx = int(params[1]) if len(params) > 1 else 8
         gen_mem(outdir, mn, mx, nomax=(mx < 0))
-    elif kind in ("xlcorpus", "wasihost", "inst"):
+    elif kind in ("xlcorpus", "wasihost", "inst", "becorpus"):
         pass   # handled at the end of the file
     else:
         sys.exit("unknown kind")
@@ -715,3 +715,33 @@ def gen_inst(outdir, seed, k):
 
 if __name__ == "__main__" and len(sys.argv) > 1 and sys.argv[1] == "inst":
     gen_inst(sys.argv[2], int(sys.argv[3]), int(sys.argv[4]))
+
+
+# C19 (auxiliary): each module twice - as is, and with every f32/f64 immediate byte-reversed
+def gen_becorpus(outdir, seed, count):
+    import wasmenc
+    os.makedirs(outdir, exist_ok=True)
+    rnd = random.Random(seed ^ 0xBE)
+    for i in range(count):
+        ms = rnd.getrandbits(64)
+        out = []
+        for rev in (False, True):
+            # instructions are encoded when they are added: build the module twice from the same random stream
+            wasmenc.FLOAT_IMM_REVERSED = rev
+            r = random.Random(ms)
+            prof = {"nfuncs": r.choice([1, 3, 8, 20]), "mem": r.random() < 0.7, "table": r.random() < 0.5, "names": False, "tame": True,
+                    "dup": 0.0, "export_p": 0.5, "maxname": 10, "sizes": [1, 2, 3, 6, 15]}
+            m, bodies, sigs, nimp = gen_xl_module(r, prof)
+            # make sure float globals with constant initialisers are present (their initialiser is decoded more than once)
+            m.global_(F32, False, [("f32.const", r.getrandbits(32))])
+            m.global_(F64, True, [("f64.const", r.getrandbits(64))])
+            out.append(m.encode())
+        wasmenc.FLOAT_IMM_REVERSED = False
+        with open(os.path.join(outdir, "b%03d.wasm" % i), "wb") as f:
+            f.write(out[0])
+        with open(os.path.join(outdir, "b%03d.rev.wasm" % i), "wb") as f:
+            f.write(out[1])
+
+
+if __name__ == "__main__" and len(sys.argv) > 1 and sys.argv[1] == "becorpus":
+    gen_becorpus(sys.argv[2], int(sys.argv[3]), int(sys.argv[4]))
